@@ -46,6 +46,19 @@ CHECKS = {
         technique="TLA+ spec + TLC (safety+liveness, what-if variants); schedule replay on real threads; TLC trace validation",
         design_ref="4.2, 5/C32",
     ),
+    "C04": dict(
+        category="model_checking",
+        text="TracerOps/Tracer.tla specify the tracer's distance bookkeeping over an abstract distance domain "
+             "(zero / positive / inf vs NaN / negative / missing) and TLC checks the design. TLC enumerates every "
+             "comparison kind x pair of 80 value classes (plus truthiness, exception matching, identity of the "
+             "same object, the auxiliary subscript predicate): 60k cases, each executed on the real "
+             "ExecutionTracer callbacks with concrete representatives; TLC evaluates WellFormed / "
+             "RaisesOnlyIfOpRaises on the observed distances with Python's own operator as reference.",
+        note="Case partition with one representative per class and boundary members; not all floats/ints are "
+             "enumerated and the numeric accuracy of non-zero distances is not claimed.",
+        technique="TLA+ spec of the abstract distance domain + TLC case enumeration replayed on the real tracer; TLC trace validation",
+        design_ref="4.3, 5/C04",
+    ),
 }
 
 NOT_BUILT_REASON = "not built yet in this round (planned, see DESIGN.md section 5); no claim is made"
